@@ -550,7 +550,7 @@ impl Streams {
     pub fn new() -> Self {
         let mut scan = Stream::new("scan", unit::REQ, "chk_scan", &format!("{} * {} * list (N * N * list (option Z)) * sexpr", INFO_TY, IXS_TY), "outcome (list N)");
         scan.shard = 40;
-        let mut class = Stream::new("class", unit::REQ, "chk_class", &format!("{} * {} * list (N * N * list (option Z)) * sexpr", INFO_TY, IXS_TY), "bool * bool * bool");
+        let mut class = Stream::new("class", unit::REQ, "chk_class", &format!("{} * {} * list (N * N * list (option Z)) * sexpr", INFO_TY, IXS_TY), "bool * bool");
         class.shard = 80;
         let mut translate = Stream::new("translate_e2e", unit::REQ, "chk_translate", &format!("{} * sexpr", INFO_TY), "outcome (option sidx * option sexpr)");
         translate.shard = 100;
@@ -571,9 +571,9 @@ pub async fn check_pred(t: &Table, sql: &str, rows: &[(u64, u64, Row)], info: &I
     let mut ctx = Ctx::new(t.cols.iter().map(|c| (c.name.clone(), c.ty.clone())).collect());
     let ast = optimized.as_ref().map(|e| expr_to_ast(e, &mut ctx));
     let model_rows: Vec<Row> = rows.iter().map(|r| r.2.clone()).collect();
-    let (k1, k2) = match &ast {
-        Some(a) => (known_not_over_nullable(info, &model_rows, a), known_range_swapped(info, &model_rows, a)),
-        None => (false, false),
+    let k1 = match &ast {
+        Some(a) => known_not_over_nullable(info, &model_rows, a),
+        None => false,
     };
     // the real translation (with the table's real index information): class 3 looks at its leaves
     let real_info = t.ds.scalar_index_info().await.ok();
@@ -590,14 +590,14 @@ pub async fn check_pred(t: &Table, sql: &str, rows: &[(u64, u64, Row)], info: &I
         (Ok(a), Ok(b)) => {
             if a == b {
                 sink.oracle_ok();
-                sink.count(if k1 || k2 || k3 { "e2e:equal-though-in-class" } else { "e2e:equal" });
+                sink.count(if k1 || k3 { "e2e:equal-though-in-class" } else { "e2e:equal" });
             } else {
-                let class = if k5 { Some("zonemap_rows_not_contiguous") } else if k4 { Some("ngram_no_trigram_query") } else if k1 { Some("not_over_nullable") } else if k2 { Some("range_bounds_swapped") } else { None };
+                let class = if k5 { Some("zonemap_rows_not_contiguous") } else if k4 { Some("ngram_no_trigram_query") } else if k1 { Some("not_over_nullable") } else { None };
                 sink.count(match class {
                     Some("not_over_nullable") => "e2e:DIFF-class-not_over_nullable",
                     Some("ngram_no_trigram_query") => "e2e:DIFF-class-ngram_no_trigram_query",
                     Some("zonemap_rows_not_contiguous") => "e2e:DIFF-class-zonemap_rows_not_contiguous",
-                    Some(_) => "e2e:DIFF-class-range_bounds_swapped",
+                    Some(_) => "e2e:DIFF-class-other",
                     None => "e2e:DIFF-unlisted",
                 });
                 let only_i: Vec<u64> = a.iter().filter(|x| !b.contains(x)).cloned().collect();
@@ -626,7 +626,7 @@ pub async fn check_pred(t: &Table, sql: &str, rows: &[(u64, u64, Row)], info: &I
     // class stream: the Rust mirror of the class predicates against the Coq definitions
     let rows_c = rows_coq(rows);
     let ixs_c = ixs_coq(ixs);
-    st.class.push(format!("({}, {}, {}, {})", info_coq(info), ixs_c, rows_c, ast.coq()), format!("({}, {}, {})", coq::b(k1), coq::b(k2), coq::b(k3)), case(json!({"known": [k1, k2, k3]})));
+    st.class.push(format!("({}, {}, {}, {})", info_coq(info), ixs_c, rows_c, ast.coq()), format!("({}, {})", coq::b(k1), coq::b(k3)), case(json!({"known": [k1, k3]})));
     // translate stream: the real translator with the table's real index information
     if let Some(real_info) = &real_info {
         let cols: Vec<(String, DataType)> = t.cols.iter().map(|c| (c.name.clone(), c.ty.clone())).collect();
@@ -641,13 +641,13 @@ pub async fn check_pred(t: &Table, sql: &str, rows: &[(u64, u64, Row)], info: &I
             Err(_) => None,
         };
         if let Some(out) = out {
-            st.scan.push(format!("({}, {}, {}, {})", info_coq(info), ixs_c, rows_c, ast.coq()), out, case(json!({"rows_with_index": format!("{with:?}").chars().take(300).collect::<String>(), "known": [k1, k2, k3]})));
-            sink.count(if k1 || k2 || k3 { "scan:in-class" } else { "scan:outside" });
+            st.scan.push(format!("({}, {}, {}, {})", info_coq(info), ixs_c, rows_c, ast.coq()), out, case(json!({"rows_with_index": format!("{with:?}").chars().take(300).collect::<String>(), "known": [k1, k3]})));
+            sink.count(if k1 || k3 { "scan:in-class" } else { "scan:outside" });
         }
     }
 }
 
-/// fixed corpus: the inputs of findings F1 and range_bounds_swapped (always run first)
+/// fixed corpus: the inputs of findings F1, bitmap_inverted_range and of the repaired range_bounds_swapped (always run first)
 pub async fn corpus(st: &mut Streams, sink: &mut Sink) -> Result<(), String> {
     let cols = vec![
         ColSpec { name: "id".into(), ty: DataType::Int64, nullable: false, indices: vec![] },
